@@ -27,6 +27,9 @@ func c18TypeD(shape string) TypeD {
 		d.Rels = nil
 	case "rels-only":
 		d.Attrs = nil
+	case "plain":
+		// only plain-value attributes (no byte string, no pointer) next to the to-many lists
+		d.Attrs = []AttrD{d.Attrs[0], d.Attrs[5]}
 	}
 	return d
 }
@@ -37,12 +40,12 @@ func c18Source(soft bool, shape string) j.Resource { return c18SourceV(soft, sha
 func c18SourceV(soft bool, shape string, variant int) j.Resource {
 	r := c18SourceV0(soft, shape)
 	if variant == 1 {
-		r.Set("y", []byte{})
+		c18SetIf(r, "y", []byte{})
 		py := []byte{}
-		r.Set("py", &py)
-		r.Set("ps", Ptr(""))
-		r.Set("pi", Ptr(int(0)))
-		r.Set("many", []string{})
+		c18SetIf(r, "py", &py)
+		c18SetIf(r, "ps", Ptr(""))
+		c18SetIf(r, "pi", Ptr(int(0)))
+		c18SetIf(r, "many", []string{})
 	}
 	return r
 }
@@ -50,17 +53,26 @@ func c18SourceV(soft bool, shape string, variant int) j.Resource {
 func c18SourceV0(soft bool, shape string) j.Resource {
 	r := c18TypeD(shape).NewRes(soft)
 	r.Set("id", "src")
-	r.Set("s", "v")
-	r.Set("y", []byte{3, 1, 2})
+	c18SetIf(r, "s", "v")
+	c18SetIf(r, "y", []byte{3, 1, 2})
 	py := []byte{4, 5}
-	r.Set("py", &py)
-	r.Set("ps", Ptr("p"))
-	r.Set("pi", Ptr(int(7)))
-	r.Set("w", TimeAlph[4])
-	r.Set("one", "x")
-	r.Set("many", []string{"c", "a", "b"})
-	r.Set("single", []string{"only"})
+	c18SetIf(r, "py", &py)
+	c18SetIf(r, "ps", Ptr("p"))
+	c18SetIf(r, "pi", Ptr(int(7)))
+	c18SetIf(r, "w", TimeAlph[4])
+	c18SetIf(r, "one", "x")
+	c18SetIf(r, "many", []string{"c", "a", "b"})
+	c18SetIf(r, "single", []string{"only"})
 	return r
+}
+
+// c18SetIf sets a field if the resource's type declares it (the shapes leave fields out).
+func c18SetIf(r j.Resource, name string, v any) {
+	if _, ok := r.Attrs()[name]; ok {
+		r.Set(name, v)
+	} else if _, ok := r.Rels()[name]; ok {
+		r.Set(name, v)
+	}
 }
 
 // c18Read renders everything readable from r through the Resource interface.
@@ -378,6 +390,7 @@ func c18Initial(x *mc.Exec) {
 
 type c18TypeSys struct {
 	src, cpy j.Type
+	initDiff string
 }
 
 func renderType(t j.Type) string {
@@ -389,6 +402,9 @@ var c18TypeOps = []string{"AddAttr(new)", "RemoveAttr(s)", "AddRel(new)", "Remov
 func (y *c18TypeSys) Key() string { return renderType(y.src) + "||" + renderType(y.cpy) }
 
 func (y *c18TypeSys) Apply(op int) (fails []mc.Violation, fatal bool) {
+	if y.initDiff != "" {
+		return []mc.Violation{{Sig: "C18:type-copy:differs", Msg: "Type.Copy() differs from its source: " + y.initDiff}}, true
+	}
 	target, other := &y.src, &y.cpy
 	side := "source"
 	if op >= len(c18TypeOps) {
@@ -430,10 +446,27 @@ func c18TypeBFS(c *Ctx, shape string) *mc.BFS {
 			return "source: " + c18TypeOps[i]
 		},
 		New: func() mc.System {
-			src := c18TypeD(shape).SoftType()
-			y := &c18TypeSys{src: src, cpy: src.Copy()}
-			if renderType(y.src) != renderType(y.cpy) {
-				panic("Type.Copy differs from its source: " + renderType(y.cpy))
+			src := c18TypeD(strings.TrimSuffix(shape, "+keys-differ")).SoftType()
+			if strings.HasSuffix(shape, "+keys-differ") {
+				// maps built by hand: the keys are not the fields' names, and two keys hold
+				// definitions with one name
+				attrs, rels := map[string]j.Attr{}, map[string]j.Rel{}
+				for n, a := range src.Attrs {
+					attrs["key-of-"+n] = a
+					if n == "s" {
+						attrs["second-key-of-"+n] = a
+					}
+				}
+				for n, r := range src.Rels {
+					rels["key-of-"+n] = r
+				}
+				src.Attrs, src.Rels = attrs, rels
+			}
+			y := &c18TypeSys{src: src}
+			if p := Try(func() { y.cpy = src.Copy() }); p != "" {
+				y.initDiff = "panic: " + p
+			} else if renderType(y.src) != renderType(y.cpy) {
+				y.initDiff = fmt.Sprintf("source [%s], copy [%s]", renderType(y.src), renderType(y.cpy))
 			}
 			return y
 		},
@@ -530,8 +563,8 @@ func init() {
 	var hs []Harness
 	for _, soft := range []bool{true, false} {
 		for _, how := range []string{"Copy", "New"} {
-			for _, shape := range c18Shapes {
-				if !soft && shape != "full" {
+			for _, shape := range append(append([]string{}, c18Shapes...), "plain") {
+				if (!soft && shape != "full" && shape != "plain") || (soft && shape == "plain") {
 					continue
 				}
 				soft, how, shape := soft, how, shape
@@ -562,7 +595,7 @@ func init() {
 			}
 		}
 	}
-	for _, shape := range c18Shapes {
+	for _, shape := range append(append([]string{}, c18Shapes...), "full+keys-differ") {
 		shape := shape
 		hs = append(hs, Harness{Name: "C18/type-copy-" + shape,
 			Custom:       func(c *Ctx) { c18TypeBFS(c, shape).Explore(); c.R.Sets["nontrivial"] = c.R.Sets["states"] },
@@ -573,7 +606,7 @@ func init() {
 		Harness{Name: "C18/first-wrapper", Body: c18FirstWrapper}, Harness{Name: "C18/soft-newfunc", Body: c18SoftNewFunc})
 	Register(&Prop{
 		ID: "C18",
-		Rule: "Engine B: for {soft, wrapped} x {Copy(), New()} (soft also for a type without relationships and a type without attributes) a source resource holding a byte string, a pointer to a byte string, nullable pointers, a time and an unsorted 3-element to-many list and a 1-element to-many list is derived, then ALL histories (depth <= 3 quick / 4 thorough) of 20 mutations applied to either side plus the operation 'read everything from both' (Set of several fields and id, AddAttr/AddRel/RemoveField on its type, edits through the soft resource's exported Type pointer, deleting from / adding to the maps returned by Attrs(), Rels() and GetType(), MarshalResource with relationship data (sorts in place), Filter '=' on the to-many (sorts in place), writing element 0 of the slices obtained from Get for []byte, []string and *[]byte) are explored with deep-snapshot de-duplication; nothing is read between the operations of a history (reading is an operation; a second, one level shallower search reads both sides around every step): after the last mutation everything readable from the OTHER side must equal what an equal pair that underwent all but that mutation shows. Same for Type.Copy under AddAttr/RemoveAttr/AddRel/RemoveRel. Engine A: the derived object right after derivation equals its source and marshals identically, also when its byte strings are empty but non-nil (Copy) / is zero-valued (New). Every state is a distinct pair of heaps",
+		Rule: "Engine B: for {soft, wrapped} x {Copy(), New()} (soft also for a type without relationships and a type without attributes, wrapped also for a struct with plain-value attributes only) a source resource holding a byte string, a pointer to a byte string, nullable pointers, a time and an unsorted 3-element to-many list and a 1-element to-many list is derived, then ALL histories (depth <= 3 quick / 4 thorough) of 20 mutations applied to either side plus the operation 'read everything from both' (Set of several fields and id, AddAttr/AddRel/RemoveField on its type, edits through the soft resource's exported Type pointer, deleting from / adding to the maps returned by Attrs(), Rels() and GetType(), MarshalResource with relationship data (sorts in place), Filter '=' on the to-many (sorts in place), writing element 0 of the slices obtained from Get for []byte, []string and *[]byte) are explored with deep-snapshot de-duplication; nothing is read between the operations of a history (reading is an operation; a second, one level shallower search reads both sides around every step): after the last mutation everything readable from the OTHER side must equal what an equal pair that underwent all but that mutation shows. Same for Type.Copy under AddAttr/RemoveAttr/AddRel/RemoveRel (also for a type whose map keys are not its fields' names). Engine A: the derived object right after derivation equals its source and marshals identically, also when its byte strings are empty but non-nil (Copy) / is zero-valued (New). Every state is a distinct pair of heaps",
 		Assumptions: []string{"writing through a nullable pointer obtained from Get (other than the slice behind *[]byte) is not judged: the statement lists slices only"},
 		Harnesses: hs,
 	})
